@@ -22,8 +22,8 @@ for e in idx:
         checks[m.group(1)]={"caught":'VIOLATION property=' in txt,"first_violation":viol[0][:300] if viol else None}
     suite=tail('suite_with.txt',2)
     meta={
-      "id":e['id'],"property":e['property'],"round":{"s":1,"r":2,"t":3,"u":4,"v":5}[e["id"][0]],
-      "origin":"independent sub-agent given only the property text and a scratch worktree"+(" plus one sentence naming the change an earlier sub-agent had already made to the same property (so as to get a different one) and a request for two conditions lining up" if e['id'][0] in 'rt' else " plus the changes three earlier sub-agents had made to the same property and a request for state that survives across operations or an entry point no existing test calls" if e['id'][0]=='u' else " plus the changes four earlier sub-agents had made to the same property and a request for an unusual but legal configuration value, call order, or boundary between two internal modes of one operation" if e['id'][0]=='v' else ""),
+      "id":e['id'],"property":e['property'],"round":{"s":1,"r":2,"t":3,"u":4,"v":5,"w":6}[e["id"][0]],
+      "origin":"independent sub-agent given only the property text and a scratch worktree"+(" plus one sentence naming the change an earlier sub-agent had already made to the same property (so as to get a different one) and a request for two conditions lining up" if e['id'][0] in 'rt' else " plus the changes three earlier sub-agents had made to the same property and a request for state that survives across operations or an entry point no existing test calls" if e['id'][0]=='u' else " plus the changes four earlier sub-agents had made to the same property and a request for an unusual but legal configuration value, call order, or boundary between two internal modes of one operation" if e['id'][0]=='v' else " plus the changes five earlier sub-agents had made to the same property and a request for two cooperating sites that each look fine alone, or a rarely taken error/return path (EINTR, EAGAIN or ENOBUFS at an unusual point, an error together with partial data, a second call after a failure, an object reused after an error)" if e['id'][0]=='w' else ""),
       "change":e['change'],"files":e['files'],"needs_to_manifest":e['needs'],
       "demonstration":sorted(os.listdir(f"{d}/demo")),
       "ran":[
